@@ -1,4 +1,243 @@
-import Cello.Iter
+/-
+  C11 — iteration agrees with len and get, forwards and backwards, for views too.
+
+  Property theorems only; the proofs are in CelloProofs/Lemmas/Iter*.lean.
+  Model: Cello/Iter.lean — every iterable of /repo as a small state machine (`Iterable`: `init / next / last / prev`,
+  `len`, `get`) that mirrors the C functions, `Run` = a walk that yields a list and then `Terminal`,
+  `LawfulAs I l` = foreach over `I` yields exactly `l` and ends with Terminal, the backward walk yields the reverse of `l`,
+  `len I = |l|` and `get I i = l[i]` (where the type implements Len / a positional Get).
+  The model is tied to the C code by harness/h_iter.c ⇄ lean/Driver/Iter.lean on every run of `./check C11`.
+
+  Known findings (the C code is wrong, the model mirrors it, the full statements are refuted below):
+    F11 Slice iteration outside a small parameter region, F12 backward walk over a Zip of unequal inputs,
+    F13 a Tuple holding one object twice.
+-/
+import CelloProofs.Lemmas.IterRun
+import CelloProofs.Lemmas.IterContainers
+import CelloProofs.Lemmas.IterTree
+import CelloProofs.Lemmas.IterRange
+import CelloProofs.Lemmas.IterViews
+import CelloProofs.Lemmas.IterSlice
+
 namespace Cello.Iter
-theorem C11_placeholder : (arrayI [1, 2, 3]).len = some 3 := rfl
+
+/-! ## What `LawfulAs` means for the executable model (the thing the driver runs) -/
+
+/-- If `I` is lawful for `l`, the fuelled interpreter that the driver runs (and that is compared with the C library on
+    every check) computes exactly `l` then Terminal forwards, and the reverse backwards, from any state. -/
+theorem C11_lawful_is_what_runs {α : Type} (I : Iterable α) (l : List α) (h : LawfulAs I l) (fuel : Nat)
+    (hf : l.length < fuel) : I.forward fuel = (l, .term) ∧ I.backward fuel = (l.reverse, .term) :=
+  ⟨(h.fwd I.s0).runFuel fuel hf, (h.bwd I.s0).runFuel fuel (by simpa using hf)⟩
+
+/-! ## Containers -/
+
+/-- **Array**: forward = the elements in order, backward = reverse, `len`, `get i` — for every content and length. -/
+theorem C11_array_lawful {α : Type} (l : List α) : LawfulAs (arrayI l) l ∧ (arrayI l).len = some l.length :=
+  ⟨array_lawfulAs l, rfl⟩
+
+/-- **List** (linked nodes) -/
+theorem C11_list_lawful {α : Type} (l : List α) : LawfulAs (listI l) l ∧ (listI l).len = some l.length :=
+  ⟨list_lawfulAs l, rfl⟩
+
+/-- **Table**: for every slot array (any pattern of holes), iteration yields exactly the keys of the occupied slots in
+    slot order, backwards the reverse, and `len` is their number. -/
+theorem C11_table_lawful {α : Type} (slots : List (Option α)) :
+    LawfulAs (tableI slots) (occupied slots) ∧ (tableI slots).len = some (occupied slots).length :=
+  ⟨table_lawfulAs slots, rfl⟩
+
+/-- **Tree**: for every tree shape (balanced or not), successor / predecessor stepping through child and parent
+    pointers yields exactly the in-order sequence, backwards the reverse, and `len` is the number of nodes. -/
+theorem C11_tree_lawful {α : Type} (t : T α) :
+    LawfulAs (treeI t) t.inorder ∧ (treeI t).len = some t.inorder.length :=
+  ⟨tree_lawfulAs t, by simp [treeI, T.size_eq_length]⟩
+
+/-- **Tuple**, when no object occurs twice (F13 otherwise): the position is found again by searching for the pointer. -/
+theorem C11_tuple_lawful (ids : List Nat) (hnd : ids.Nodup) :
+    LawfulAs (tupleI ids) ids ∧ (tupleI ids).len = some ids.length :=
+  ⟨tuple_lawfulAs ids hnd, rfl⟩
+
+/-- full statement for Tuple (every tuple, also with a repeated object) — refuted by `C11_tuple_dup_refuted` -/
+def C11_tuple_statement : Prop := ∀ ids : List Nat, LawfulAs (tupleI ids) ids
+
+/-- **F13**: over `tuple(x, x)` the forward walk never reaches Terminal (every call finds the first occurrence again). -/
+theorem C11_tuple_dup_refuted : ¬ C11_tuple_statement := by
+  intro H
+  have h := ((H [7, 7]).fwd none).runFuel 8 (by decide)
+  revert h; decide
+
+/-! ## Range -/
+
+/-- **Range**, for ALL `(start, stop, step)` — step 0, negative steps, empty ranges, lengths not divisible by the step:
+    forward iteration yields `rangeList`, the backward walk its reverse, `Range_Len` is its length and `Range_Get i` its
+    `i`-th element.  (This is the statement that F09/F10 violated before the `fix:` commits.) -/
+theorem C11_range_lawful (start stop step : Int) :
+    LawfulAs (rangeI start stop step) (rangeList start stop step) ∧
+    (rangeI start stop step).len = some (rangeList start stop step).length :=
+  ⟨range_lawfulAs start stop step, by simp [rangeI, rangeList]⟩
+
+/-- `rangeList` is the definition of the property text: for a positive step exactly the numbers `start + step*j`
+    (`j = 0, 1, …`) below `stop`; for a negative step exactly the numbers `stop-1 + step*j` not below `start`;
+    nothing for step 0. -/
+theorem C11_rangeList_mem (start stop step x : Int) :
+    x ∈ rangeList start stop step ↔
+      (step > 0 ∧ ∃ j : Nat, x = start + step * j ∧ x < stop) ∨
+      (step < 0 ∧ ∃ j : Nat, x = stop - 1 + step * j ∧ x ≥ start) := by
+  simp only [rangeList, List.mem_map, List.mem_range]
+  rcases Int.lt_trichotomy step 0 with hc | hc | hc
+  · have hnc : ¬ (step > 0) := by omega
+    simp only [hnc, if_false, false_and, false_or, hc, true_and]
+    constructor
+    · rintro ⟨j, hj, rfl⟩; exact ⟨j, rfl, (rangeLen_neg_iff start stop step hc j).mpr hj⟩
+    · rintro ⟨j, rfl, hx⟩; exact ⟨j, (rangeLen_neg_iff start stop step hc j).mp hx, rfl⟩
+  · subst hc; simp [rangeLen]
+  · have hnc : ¬ (step < 0) := by omega
+    simp only [hc, gt_iff_lt, if_true, true_and, hnc, false_and, or_false]
+    constructor
+    · rintro ⟨j, hj, rfl⟩; exact ⟨j, rfl, (rangeLen_pos_iff start stop step hc j).mpr hj⟩
+    · rintro ⟨j, rfl, hx⟩; exact ⟨j, (rangeLen_pos_iff start stop step hc j).mp hx, rfl⟩
+
+/-! ## Views: closure, to any nesting depth -/
+
+/-- **Filter**: over a lawful iterable, Filter yields exactly the accepted elements, in both directions (Filter implements
+    Last/Prev with the same skipping loop).  `fuel` bounds the model of the C `while(true)`; any fuel above the length
+    of the underlying sequence suffices. -/
+theorem C11_filter_closed {α : Type} (I : Iterable α) (p : α → Bool) (fuel : Nat) (l : List α)
+    (h : LawfulAs I l) (hf : l.length < fuel) : LawfulAs (filterI I p fuel) (l.filter p) :=
+  filter_lawfulAs I p fuel h hf
+
+/-- **Map**: the images in order, in both directions, with the `len` and `get` of the underlying iterable. -/
+theorem C11_map_closed {α β : Type} (I : Iterable α) (f : α → β) (l : List α) (h : LawfulAs I l) :
+    LawfulAs (mapI I f) (l.map f) :=
+  map_lawfulAs I f h
+
+/-- **Zip**, any arity ≥ 1, inputs of ANY lengths: the forward walk yields the tuples up to the shortest input and then
+    Terminal, `len` is the minimum and `get i` the `i`-th tuple. -/
+theorem C11_zip_forward {α : Type} (Is : List (Iterable α)) (ls : List (List α)) (hne : Is ≠ [])
+    (h : All₂ (fun I l => LawfulAs I l) Is ls) :
+    FwdAs (zipI Is) (zipLists ls) ∧ (∀ n, (zipI Is).len = some n → n = (zipLists ls).length) ∧
+    (∀ g, (zipI Is).get = some g → ∀ i (hi : i < (zipLists ls).length), g (Int.ofNat i) = some (zipLists ls)[i]) :=
+  zip_forward Is ls hne h
+
+/-- the zipped sequence has the length of the shortest input -/
+theorem C11_zipLists_length {α : Type} (l : List α) (l' : List α) (ls : List (List α)) :
+    (zipLists (l :: l' :: ls)).length = min l.length (zipLists (l' :: ls)).length := by
+  simp [zipLists]
+
+/-- **Zip**, inputs of EQUAL length: lawful in both directions. -/
+theorem C11_zip_closed {α : Type} (Is : List (Iterable α)) (ls : List (List α)) (hne : Is ≠ []) (n : Nat)
+    (hlen : ∀ l ∈ ls, l.length = n) (h : All₂ (fun I l => LawfulAs I l) Is ls) :
+    LawfulAs (zipI Is) (zipLists ls) :=
+  zip_lawfulAs Is ls hne n hlen h
+
+/-- full statement for the backward walk of Zip (inputs of any lengths) — refuted by `C11_zip_backward_refuted` -/
+def C11_zip_backward_statement : Prop :=
+  ∀ (Is : List (Iterable Nat)) (ls : List (List Nat)), Is ≠ [] → All₂ (fun I l => LawfulAs I l) Is ls →
+    BwdAs (zipI Is) (zipLists ls)
+
+/-- **F12**: `zip([1,2,3], [10,20])` walks backwards as (3,20) (2,10): Zip_Iter_Last takes each input's own last. -/
+theorem C11_zip_backward_refuted : ¬ C11_zip_backward_statement := by
+  intro H
+  have h := (H [arrayI [1, 2, 3], arrayI [10, 20]] [[1, 2, 3], [10, 20]] (by simp)
+    (All₂.cons (array_lawfulAs _) (All₂.cons (array_lawfulAs _) All₂.nil)) (true, (none, none, ()))).runFuel 8 (by decide)
+  revert h; decide
+
+/-- **enumerate** = `zip(range(len I), I)`: the pairs `(i, x_i)`, lawful in both directions. -/
+theorem C11_enumerate_closed {α : Type} (I : Iterable α) (inj : Int → α) (l : List α) (h : LawfulAs I l) :
+    LawfulAs (enumI I l.length inj) (zipLists [(List.range l.length).map (fun (j : Nat) => inj (j : Int)), l]) :=
+  enum_lawfulAs I inj h
+
+/-! ## Slice -/
+
+/-- Slice_Arg as repaired in /repo (commit a67379b): negative = from the end, then clamped into `[0, n]` -/
+theorem C11_sliceArg_clamps (n : Nat) (a : Int) :
+    0 ≤ sliceArg n a ∧ sliceArg n a ≤ n ∧
+    (0 ≤ a → a ≤ n → sliceArg n a = a) ∧ (a < 0 → -(n : Int) ≤ a → sliceArg n a = n + a) ∧
+    (a < -(n : Int) → sliceArg n a = 0) ∧ (a > n → sliceArg n a = n) := by
+  simp only [sliceArg]
+  refine ⟨?_, ?_, ?_, ?_, ?_, ?_⟩ <;> intros <;> (repeat' split) <;> omega
+
+/-- the comparison before the repair was unsigned: a bound below `-n` became `n` instead of 0 -/
+theorem C11_sliceArg_old_refuted : sliceArgOld 3 (-9) = 3 ∧ sliceArg 3 (-9) = 0 := by decide
+
+/-- **Slice_partial**: over a lawful iterable of `n` items, with the stored (clamped) start `a`, stop `b` and step `c`:
+    `len` and `get` are right for ALL parameters; the forward walk is right in `SliceRegionFwd`, the backward walk in
+    `SliceRegionBwd` (e.g. the whole-sequence slices `slice(I)`, `slice(I,_,_,1)`, `reverse(I)`, and strides that fit
+    exactly).  Outside these regions the C code is wrong (known finding F11): full statement `C11_slice_statement`. -/
+theorem C11_slice_partial {α : Type} (I : Iterable α) (l : List α) (h : LawfulAs I l) (A B : Nat) (c : Int)
+    (hA : A ≤ l.length) (hB : B ≤ l.length) :
+    (SliceRegionFwd l.length A B c → FwdAs (sliceI I l.length A B c) (sliceSpec l A B c)) ∧
+    (SliceRegionBwd l.length A B c → BwdAs (sliceI I l.length A B c) (sliceSpec l A B c)) ∧
+    (∀ n, (sliceI I l.length A B c).len = some n → n = (sliceSpec l A B c).length) ∧
+    (∀ g, (sliceI I l.length A B c).get = some g → ∀ i (hi : i < (sliceSpec l A B c).length),
+      g (Int.ofNat i) = some (sliceSpec l A B c)[i]) :=
+  ⟨slice_fwdAs I h A B c hA hB, slice_bwdAs I h A B c hA hB, (slice_len_get I h A B c hB).1, (slice_len_get I h A B c hB).2⟩
+
+/-- in both regions a Slice is lawful -/
+theorem C11_slice_lawful_in_region {α : Type} (I : Iterable α) (l : List α) (h : LawfulAs I l) (A B : Nat) (c : Int)
+    (hA : A ≤ l.length) (hB : B ≤ l.length)
+    (hf : SliceRegionFwd l.length A B c) (hb : SliceRegionBwd l.length A B c) :
+    LawfulAs (sliceI I l.length A B c) (sliceSpec l A B c) :=
+  ⟨slice_fwdAs I h A B c hA hB hf, slice_bwdAs I h A B c hA hB hb, (slice_len_get I h A B c hB).1,
+    (slice_len_get I h A B c hB).2⟩
+
+/-- `reverse(I)` = `slice(I, _, _, -1)` and the whole-sequence slice are inside both regions for every length -/
+theorem C11_reverse_in_region (n : Nat) :
+    SliceRegionFwd n 0 n (-1) ∧ SliceRegionBwd n 0 n (-1) ∧ SliceRegionFwd n 0 n 1 ∧ SliceRegionBwd n 0 n 1 := by
+  refine ⟨Or.inr (Or.inl ⟨by omega, ?_⟩), Or.inr (Or.inl ⟨by omega, ?_⟩), Or.inl ⟨by omega, ?_⟩, Or.inl ⟨by omega, ?_⟩⟩
+  · by_cases h : (n : Int) = 0
+    · exact Or.inl h
+    · exact Or.inr ⟨by simp, by omega⟩
+  · by_cases h : (0 : Int) = n
+    · exact Or.inl h
+    · exact Or.inr ⟨by simp, by omega⟩
+  · by_cases h : (0 : Int) = n
+    · exact Or.inl h
+    · exact Or.inr ⟨by simp, by omega⟩
+  · by_cases h : (n : Int) = 0
+    · exact Or.inl h
+    · exact Or.inr ⟨by simp, by omega⟩
+
+/-- full statement for Slice (all clamped parameters) — refuted by `C11_slice_refuted` -/
+def C11_slice_statement : Prop :=
+  ∀ (I : Iterable Nat) (l : List Nat) (A B : Nat) (c : Int), LawfulAs I l → A ≤ l.length → B ≤ l.length →
+    LawfulAs (sliceI I l.length A B c) (sliceSpec l A B c)
+
+/-- **F11**: `slice(x, 0, 2)` over six items walks over all six (stop is never consulted), and
+    `slice(x, _, _, 2)` over seven items hands Terminal to Array_Iter_Next as a cursor. -/
+theorem C11_slice_refuted : ¬ C11_slice_statement ∧
+    (sliceI (arrayI [1, 2, 3, 4, 5, 6, 7]) 7 0 7 2).forward 20 = ([1, 3, 5, 7], .undef) := by
+  refine ⟨?_, by decide⟩
+  intro H
+  have h := ((H (arrayI [1, 2, 3, 4, 5, 6]) [1, 2, 3, 4, 5, 6] 0 2 1 (array_lawfulAs _) (by decide) (by decide)).fwd none).runFuel
+    10 (by decide)
+  revert h; decide
+
+/-! ## Non-vacuity -/
+
+example : LawfulAs (arrayI [5, 6, 7]) [5, 6, 7] ∧ (arrayI [5, 6, 7]).forward 10 = ([5, 6, 7], .term) ∧
+    (arrayI [5, 6, 7]).backward 10 = ([7, 6, 5], .term) := ⟨array_lawfulAs _, by decide, by decide⟩
+
+example : [3, 1, 2].Nodup ∧ (tupleI [3, 1, 2]).forward 10 = ([3, 1, 2], .term) := by decide
+
+example : (tableI [none, some 5, none, none, some 7, some 9, none]).forward 10 = ([5, 7, 9], .term) ∧
+    (tableI [none, some 5, none, none, some 7, some 9, none]).backward 10 = ([9, 7, 5], .term) := by decide
+
+example : (treeI (T.node (T.node .nil 1 .nil) 2 (T.node (T.node .nil 3 .nil) 4 .nil))).forward 10 = ([1, 2, 3, 4], .term) ∧
+    (treeI (T.node (T.node .nil 1 .nil) 2 (T.node (T.node .nil 3 .nil) 4 .nil))).backward 10 = ([4, 3, 2, 1], .term) := by
+  decide
+
+example : rangeList 2 9 3 = [2, 5, 8] ∧ rangeList 2 9 (-3) = [8, 5, 2] ∧ rangeList 0 0 2 = [] ∧ rangeList 5 3 1 = [] ∧
+    (rangeI 0 6 2).backward 10 = ([4, 2, 0], .term) := by decide
+
+example : (filterI (arrayI [1, 2, 3, 4, 5, 6]) (fun x => x % 2 == 0) 100).forward 10 = ([2, 4, 6], .term) ∧
+    [1, 2, 3, 4, 5, 6].length < 100 := by decide
+
+example : (zipI [arrayI [1, 2, 3], arrayI [10, 20]]).forward 10 = ([[1, 10], [2, 20]], .term) ∧
+    zipLists [[1, 2, 3], [10, 20]] = [[1, 10], [2, 20]] := by decide
+
+example : SliceRegionFwd 5 1 4 2 ∧ SliceRegionBwd 5 1 4 2 ∧ sliceSpec [10, 11, 12, 13, 14] 1 4 2 = [11, 13] ∧
+    (sliceI (arrayI [10, 11, 12, 13, 14]) 5 1 4 2).forward 10 = ([11, 13], .term) ∧
+    (sliceI (arrayI [10, 11, 12, 13, 14]) 5 1 4 2).backward 10 = ([13, 11], .term) := by
+  refine ⟨Or.inl ⟨by decide, Or.inr ⟨by decide, by decide⟩⟩, Or.inl ⟨by decide, Or.inr ⟨by decide, by decide⟩⟩, by decide, by decide, by decide⟩
+
 end Cello.Iter
